@@ -1,5 +1,6 @@
 import TypstyleModel.Props.C04
 import TypstyleModel.Props.C11
+import TypstyleModel.Model.Printer.Knot
 /-! C01 — formatting preserves the syntax tree (partial: printer side; the re-parse is an assumption). -/
 namespace Typstyle
 open Pretty
@@ -10,5 +11,35 @@ theorem C01_layout_sound (w : Nat) (d : Doc) : Lay .brk d (best w 0 [⟨0, .brk,
 /-- The post-pass neither adds, drops nor reorders any character that is not white space (per line). -/
 theorem C01_strip_keeps_tokens (l : List Char) :
     (trimEndL l).filter (fun c => !isWs c) = l.filter (fun c => !isWs c) := trimEndL_filter l
+
+end Typstyle
+
+namespace Typstyle
+open Pretty
+
+/-- T1.2: a node whose kind is not an expression is never converted by the expression dispatch: it is
+rejected explicitly (the model is self-checking: nothing is dropped silently). -/
+theorem C01_non_expression_is_rejected (e : Env) (r : Rec) (ctx : Ctx) (n : ANode) (h : n.kind.isExpr = false)
+    (hs : n.kind ≠ .space) :
+    convExprImpl e r ctx n = reject (.shape s!"convert_expr on a node of kind {n.kind.name}") := by
+  unfold convExprImpl
+  cases hk : n.kind <;> simp_all [Kind.isExpr]
+
+/-- T1.4 (`is_paren_needed`): optional parentheses are only ever *added* around a body, never
+removed from the source here; and they are added only around kinds that can span lines without them
+being self-delimiting. -/
+theorem C01_paren_not_added_around_self_delimiting (n : ANode)
+    (h : n.kind = .parenthesized ∨ n.kind = .codeBlock ∨ n.kind = .contentBlock ∨ n.kind = .funcCall ∨
+         n.kind = .array ∨ n.kind = .dict) : isParenNeeded n = false := by
+  rcases h with h | h | h | h | h | h <;> simp [isParenNeeded, h]
+
+/-- Each operator of a comparison chain is printed from its own tokens (repair F19): `not` followed
+by `in` prints `not in`, a bare `in` prints `in`, whatever the outermost operator of the chain is. -/
+theorem C01_not_in_from_own_tokens (e : Env) (c : ANode) (h : c.kind = .in_) (ht : c.text = "in") :
+    binOpConv e true c = pure (false, some (e.syn "not in")) ∧
+    binOpConv e false c = (do let d ← e.synLeaf c "in"; pure (false, some d)) := by
+  constructor
+  · simp [binOpConv, h, ht]
+  · simp [binOpConv, h, binOpOfKind]
 
 end Typstyle
